@@ -372,6 +372,7 @@ def _gen_transitions(rnd, ch, o):
         key = 'k%s' % b['id'][1:]
         b['guard'] = True
         b['gkey'] = key                 # b's guard is H(key) ...
+        b['tguard'] = None
         a['action_text'] = key          # ... and a's action is the very same text H(key)
         a['sends'] = []
     # documented active() predicate called from executable code (its value is discarded)
